@@ -484,8 +484,9 @@ class Bot:
         # Move one place through the ringing
         self._place += 1
 
-        # Start a new row if we get to a place that's bigger than the number of bells
-        if self._place >= self.number_of_bells:
+        # Start a new row if we get to a place that's bigger than the number of bells (or past the end
+        # of the row that is being rung, if the tower has been enlarged in the middle of that row)
+        if self._place >= min(len(self._row), self.number_of_bells):
             self.start_next_row(is_first_row=False)
 
     def main_loop(self) -> None:
